@@ -2,7 +2,7 @@
    Only statements, each closed by [exact]. *)
 From Coq Require Import List NArith ZArith Bool.
 From GV Require Import Base.Bytes Base.Scan Base.PyStr Model.Parser Spec.IdealBody
-     Proof.ParserHead Proof.ChunkedDecode Proof.ParserRun Proof.ChunkedReader Proof.BodyFileThm.
+     Proof.ParserHead Proof.ChunkedDecode Proof.ParserRun Proof.ChunkedReader Proof.BodyFileThm Proof.BodySim Proof.EndToEnd.
 Import ListNotations.
 Local Open Scope N_scope.
 
@@ -62,6 +62,16 @@ Print Assumptions C07_decoding_is_deterministic.
 Theorem C07_chunked_read_never_out_of_fuel : forall c n k, cr_inv k -> 0 < n -> fst (reader_read c n k) <> inr EOutOfFuel.
 Proof. exact chunked_read_never_out_of_fuel. Qed.
 Print Assumptions C07_chunked_read_never_out_of_fuel.
+
+(* the drain that Parser.__next__ runs before the next request always completes on a cleanly ending body
+   (with the fuel run_conn gives it), leaves nothing of the body behind, and leaves the unreader exactly at
+   the first byte after the message *)
+Theorem C07_drain_completes : forall c k rem after tr b,
+    inv_c c k -> alpha_c c k = (rem, TEof after tr) ->
+    exists k', drain (reader_read c) remaining_upper (S (length b + remaining_upper k)) (b, k) = (([], k'), None)
+               /\ u_abs (c_unreader k') = after /\ c_trailers k' = tr /\ NE (c_unreader k').
+Proof. exact drain_completes. Qed.
+Print Assumptions C07_drain_completes.
 
 (* ---- non-vacuity ---- *)
 Definition ex_chunked : bytes :=      (* 5\r\nhel\nl\r\n3;x=y\r\no\nw\r\n0\r\nT: 1\r\n\r\nNEXT *)
